@@ -19,6 +19,10 @@ pub trait InferenceStrategy {
         all_facts: &Vec<Triple>,
         known_facts: &HashSet<Triple>,
     ) -> HashSet<Triple>;
+
+    /// Called before the first round of every stratum: the next round has to treat every
+    /// fact as new, because the rule set changes between strata.
+    fn start_stratum(&mut self) {}
 }
 
 impl Reasoner {
@@ -30,21 +34,38 @@ impl Reasoner {
         let mut known_facts: HashSet<Triple> = all_facts.iter().cloned().collect();
         let idx_before_inference = all_facts.len(); // Used to keep track of which facts are inferred by the algorithm
 
-        loop {
+        // Single-stratum negation-as-failure: the rules without NOT atoms run to fixpoint first
+        // (stratum 0); then all rules run to fixpoint, NOT atoms being looked up in the known
+        // facts, which stratum 0 has already closed. Without NOT atoms there is one stratum.
+        let positive_rules: Vec<Rule> = self.rules.iter()
+            .filter(|r| r.negative_premise.is_empty())
+            .cloned()
+            .collect();
+        let strata: Vec<&Vec<Rule>> = if positive_rules.len() == self.rules.len() {
+            vec![&self.rules]
+        } else {
+            vec![&positive_rules, &self.rules]
+        };
 
-            let mut dict = self.dictionary.write().unwrap();
-            let mut inferred_facts_this_round = strat.infer_round(&mut dict, &self.rules, &all_facts, &known_facts);
+        for rules in strata {
+            strat.start_stratum();
 
-            if inferred_facts_this_round.is_empty() {
-                break;
-            }
+            loop {
 
-            for fact in inferred_facts_this_round.drain() {
-                // Insert into known_facts first; if it was not present, also store it.
-                if !known_facts.contains(&fact) {
-                    known_facts.insert(fact.clone()); // Necessary clone apparently
-                    self.dataset_index.insert(&fact);
-                    all_facts.push(fact);
+                let mut dict = self.dictionary.write().unwrap();
+                let mut inferred_facts_this_round = strat.infer_round(&mut dict, rules, &all_facts, &known_facts);
+
+                if inferred_facts_this_round.is_empty() {
+                    break;
+                }
+
+                for fact in inferred_facts_this_round.drain() {
+                    // Insert into known_facts first; if it was not present, also store it.
+                    if !known_facts.contains(&fact) {
+                        known_facts.insert(fact.clone()); // Necessary clone apparently
+                        self.dataset_index.insert(&fact);
+                        all_facts.push(fact);
+                    }
                 }
             }
         }
